@@ -13,6 +13,7 @@ CONSTANTS
   TreeIn <- TreeFromFile
   Threads <- ThreadsFromFile
   Prog <- ProgFromFile
+  MaxOrphans <- MaxOrphansFromFile
 CONSTRAINT Mark
 POSTCONDITION TraceAccepted
 CHECK_DEADLOCK FALSE
